@@ -28,7 +28,7 @@ WRAPPERS = ["BR", "Where", "WN", "Lambda", "NT"]
 def bounds(tier):
     return {"wrapper_nesting_depth": 3, "vmap_levels": [0, 1, 2], "containers": ["tuple", "list", "dict", "Module"],
             "models": ["Normal", "Affine", "RQS", "Coupling", "MAF", "BNAF", "coupling_flow", "maf_flow(rqs)", "tri_spline_flow"],
-            "freeze_subsets": "all 2^k subsets for k<=6 leaves; singles, complements of singles and whole-subtree NonTrainable above",
+            "freeze_subsets": "all 2^k subsets for k<=6 leaves; singles, complements of singles above; NonTrainable(model.bijection) / NonTrainable(model.base_dist) as whole sub-trees (eager, filter_jit, both training loops)",
             "optimisers": ["sgd", "adam", "adamw(wd=0.1)", "hostile(+1)"], "steps": [1, 2, 3] if tier != "quick" else [1, 3],
             "exhaustive_within_bounds": True}
 
@@ -328,6 +328,34 @@ def _leg_freeze(case, add):
         left = [jax.tree_util.keystr(p) for p in trainable_paths(frozen_model) if inside(jax.tree_util.keystr(p))]
         if left:
             add(f"freeze|non_trainable-leaves-trainable|{case['model']}", f"{case['model']}: after flowjax.wrappers.non_trainable({part_name}) these leaves are still in the trainable partition: {left[:4]}")
+    # a whole sub-tree (a module, with its python-int shapes and callables) handed to NonTrainable directly: same values as
+    # the unfrozen model eagerly AND when traced, exact-zero gradients inside, the rest still differentiable
+    for attr in ("bijection", "base_dist"):
+        sm = eqx.tree_at(lambda m, a=attr: getattr(m, a), model, replace_fn=W.NonTrainable)
+        tr += 1
+        nt += 1
+        want = np.asarray(model.log_prob(x))
+        for mode, f in (("eager", lambda m: m.log_prob(x)), ("filter_jit", eqx.filter_jit(lambda m: m.log_prob(x))),
+                        ("filter_jit(grad)", eqx.filter_jit(lambda m: jax.tree_util.tree_leaves(full_grad(m))))):
+            try:
+                got = f(sm)
+            except Exception as e:
+                add(f"freeze|subtree-raises|{mode}|{type(e).__name__}", f"{case['model']}: NonTrainable({attr}) as a whole sub-tree: log_prob {mode} raised {type(e).__name__}: {str(e)[:160]}")
+                continue
+            if mode != "filter_jit(grad)" and not np.allclose(np.asarray(got), want, rtol=1e-12, atol=1e-14, equal_nan=True):
+                add(f"freeze|subtree-value|{mode}", f"{case['model']}: NonTrainable({attr}) as a whole sub-tree changes log_prob ({mode})")
+        try:
+            g = leaves_by_path(full_grad(sm))
+        except Exception as e:
+            add(f"freeze|subtree-raises|grad|{type(e).__name__}", f"{case['model']}: gradient with NonTrainable({attr}) raised {type(e).__name__}: {str(e)[:160]}")
+            continue
+        g0 = leaves_by_path(full_grad(model))
+        for ks, gv in g.items():
+            if ks.startswith("." + attr):
+                if np.any(np.asarray(gv) != 0):
+                    add(f"freeze|subtree-nonzero-grad|{case['model']}", f"{case['model']}: leaf {_strip(ks)} inside NonTrainable({attr}) receives gradient {np.asarray(gv).ravel()[:3].tolist()}")
+            elif ks in g0 and not np.allclose(np.asarray(gv), np.asarray(g0[ks]), rtol=1e-9, atol=1e-12):
+                add(f"freeze|subtree-other-grad|{case['model']}", f"{case['model']}: freezing {attr} as a sub-tree changed the gradient of the unfrozen leaf {ks}")
     # frozen transformer leaves are not parameterised by conditioners
     import flowjax.bijections as B
     from flowjax.wrappers import non_trainable
@@ -362,6 +390,7 @@ def _leg_train(case, add):
     import jax.random as jr
     import optax
 
+    from flowjax import wrappers as W
     from flowjax.train import fit_to_data, fit_to_variational_target
     from flowjax.train.losses import ElboLoss
 
@@ -381,9 +410,16 @@ def _leg_train(case, add):
     if quick:
         singles = list(range(k)) if k <= 5 else [0, 1, 2, k // 2, k - 1]
         subs = list(dict.fromkeys([(), tuple(range(k))] + [(i,) for i in singles] + [tuple(j for j in range(k) if j != singles[0])]))
+    # whole sub-trees handed to NonTrainable directly (a module, not a leaf): NonTrainable(model.bijection) etc.
+    subs += [("subtree", a) for a in ("bijection", "base_dist") if any(jax.tree_util.keystr(p).startswith("." + a) for p in paths)]
     for si, sub in enumerate(subs):
-        fm = freeze(model, [paths[i] for i in sub])
-        frozen = {jax.tree_util.keystr(paths[i]) for i in sub}
+        if sub and sub[0] == "subtree":
+            fm = eqx.tree_at(lambda m, a=sub[1]: getattr(m, a), model, replace_fn=W.NonTrainable)
+            frozen = {jax.tree_util.keystr(p) for p in paths if jax.tree_util.keystr(p).startswith("." + sub[1])}
+            sub = tuple(i for i, p in enumerate(paths) if jax.tree_util.keystr(p) in frozen)
+        else:
+            fm = freeze(model, [paths[i] for i in sub])
+            frozen = {jax.tree_util.keystr(paths[i]) for i in sub}
         before = leaves_by_path(eqx.filter(fm, eqx.is_array))
         for oname, opt in opts.items():
             for steps in steps_list:
